@@ -25,6 +25,8 @@ def run(v, workdir, replay):
     v.need("withdrawals_honoured", 10)
     v.need("failed_executions_touching_bridge", 6)
     v.need("event_id_reuse_attempts", 1)
+    v.need("event_id_reuse_attempts:ics20_withdrawal", 1)
+    v.need("withdrawals_honoured:ics20_withdrawal", 1)
 
 
 def check(v, hists):
@@ -48,8 +50,16 @@ def check(v, hists):
                     v.violate("C04/deposit-from-failed-transaction", "a transaction that did not take effect left %d deposit(s) / %d deposit event(s)" % (len(new_deps), len(dep_events)), wit)
                 # reuse attempts
                 for a in acts:
-                    if a.get("event_id") and (a.get("bridge"), a["event_id"]) in honoured:
+                    ev = a.get("event_id")
+                    if a["kind"] == "ics20_withdrawal" and a.get("bridge") and a.get("memo"):
+                        try:
+                            memo = json.loads(a["memo"])
+                            ev = memo.get("rollupWithdrawalEventId") or memo.get("rollup_withdrawal_event_id")
+                        except ValueError:
+                            ev = None
+                    if ev and (a.get("bridge"), ev) in honoured:
                         v.saw("event_id_reuse_attempts")
+                        v.saw("event_id_reuse_attempts:" + a["kind"])
                 continue
             if removed_deps:
                 v.violate("C04/deposit-removed", "a transaction removed an already cached deposit", wit)
@@ -84,7 +94,8 @@ def check(v, hists):
                 ev = a.get("event_id")
                 if a["kind"] == "ics20_withdrawal" and a.get("bridge") and a.get("memo"):
                     try:
-                        ev = json.loads(a["memo"]).get("rollup_withdrawal_event_id")
+                        memo = json.loads(a["memo"])
+                        ev = memo.get("rollupWithdrawalEventId") or memo.get("rollup_withdrawal_event_id")
                     except ValueError:
                         ev = None
                 if not ev:
@@ -103,6 +114,7 @@ def check(v, hists):
                     v.violate("C04/withdrawal-event-honoured-twice/%s+%s" % (honoured[key][0], a["kind"]), "withdrawal event id %s of bridge %s honoured twice" % (ev, bridge), wit)
                 honoured[key] = (a["kind"], o.height)
                 v.saw("withdrawals_honoured")
+                v.saw("withdrawals_honoured:" + a["kind"])
             v.cell("+".join(sorted(set(kinds))), "ok", len(new_deps))
             if len(v.samples) < 4 and new_deps:
                 v.sample({"actions": kinds, "deposits": new_deps[:2]})
